@@ -1,0 +1,36 @@
+//go:build verif
+
+package aggsender
+
+// Hook for the /verif check of property C10: runs the REAL sendCertificate (build, send, marshal, store) around
+// caller-supplied collaborators. Thin wrapper only.
+
+import (
+	"context"
+
+	"github.com/agglayer/aggkit/agglayer"
+	agglayertypes "github.com/agglayer/aggkit/agglayer/types"
+	"github.com/agglayer/aggkit/aggsender/config"
+	"github.com/agglayer/aggkit/aggsender/db"
+	"github.com/agglayer/aggkit/aggsender/types"
+	aggkitcommon "github.com/agglayer/aggkit/common"
+)
+
+// NewVerifSenderC10 builds an AggSender holding only what sendCertificate uses.
+func NewVerifSenderC10(logger aggkitcommon.Logger, storage db.AggSenderStorage, client agglayer.AgglayerClientInterface,
+	flow types.AggsenderFlow, epochNotifier types.EpochNotifier) *AggSender {
+	return &AggSender{
+		log:            logger,
+		storage:        storage,
+		aggLayerClient: client,
+		flow:           flow,
+		epochNotifier:  epochNotifier,
+		cfg:            config.Config{MaxRetriesStoreCertificate: 1},
+		rateLimiter:    aggkitcommon.NewRateLimit(aggkitcommon.RateLimitConfig{}),
+	}
+}
+
+// VerifSendCertificateC10 is sendCertificate.
+func (a *AggSender) VerifSendCertificateC10(ctx context.Context) (*agglayertypes.Certificate, error) {
+	return a.sendCertificate(ctx)
+}
